@@ -21,7 +21,10 @@ def compare_accepted(c, r):
     for t in lx["toks"]:
         if t[0] in ("EOL", "EOF") and t[1] == 0 and t[2] == 0:
             continue
-        if b[t[1]:t[2]].decode("utf-8", "replace") != t[3]:
+        want = b[t[1]:t[2]].decode("utf-8", "replace")
+        if t[0] == "StringLit":
+            want = want.replace("\\n", "\n")      # the one escape the lexer decodes (lexer_test.go "string literal with escaped line")
+        if want != t[3]:
             return "token text %r is not the input between its span bounds %r" % (t[3], b[t[1]:t[2]])
     return None
 
@@ -93,6 +96,6 @@ def run(tier, replay=None):
                       "specification accepts, made concrete with seeded choices per class (multi-byte characters included); non-trivial = at least two real tokens or a comment/string" % n)
     for c in cases[:: max(1, len(cases) // 4)][:4]:
         ck.sample({"src": c["src"], "tokens": c["toks"]})
-    ck.assumptions += ["Lexer.tla evaluated by TLC is the oracle", "the \\n escape inside string literals (token text differs from the span there) is excluded: no 'n' follows a backslash",
+    ck.assumptions += ["Lexer.tla evaluated by TLC is the oracle", "inside string literals the two characters backslash-n are decoded to a line break in the token text (as lexer_test.go documents); spans are compared exactly",
                        "inputs longer than the bound are covered by C06's sampled tier and by every session check's parse guard"]
     return ck.finish()
